@@ -234,3 +234,27 @@ Theorem C10_drain_filter_next_never_runs_out_of_fuel :
 Proof. exact filter_next_at_fuel. Qed.
 Print Assumptions C10_drain_filter_next_on_the_object.
 Print Assumptions C10_drain_filter_next_never_runs_out_of_fuel.
+
+(* non-vacuity of the whole-life theorems (Drain, IntoIter; also IntoIter::clone in C12): a concrete
+   state -- an (8,8) element type, one vector owning a block of capacity 3 with the two live elements 0
+   and 1 -- satisfies their hypotheses, with the range 0..1 for the drain *)
+Example C10_whole_life_hypotheses_satisfiable :
+  let cfg := {| esz := 8; ealign := 8; needs_drop := true; release := false |} in
+  let bl := {| b_size := 48; b_align := 8; h_len := 2; h_cap := 3; h_align := 8;
+               slots := fun k => if k =? 0 then Init 0 else if k =? 1 then Init 1 else Uninit; b_live := true |} in
+  let s := {| heap := [bl]; vecs := [Some (At 0 0)]; iters := []; ledger := fun e => if e <? 2 then Live else Fresh;
+              payload := fun _ => 0; next_elem := 2; drop_panics := [1]; clone_panics := []; alloc_fail := None;
+              alloc_limit := 1073741824; events := [] |} in
+  cfg_ok cfg /\ vec_at s 0 0 bl /\ block_ok cfg bl /\ owned s bl /\
+  resolve_pure (BIncl 0) (BExcl 1) (h_len bl) = Some (0, 1) /\ velems bl = [0; 1].
+Proof.
+  cbv zeta. split; [repeat split; reflexivity|]. split; [split; reflexivity|].
+  split; [constructor; try reflexivity; simpl; lia|].
+  split.
+  - constructor.
+    + intros i Hi. simpl in Hi. assert (i = 0 \/ i = 1) as [->| ->] by lia; eexists; reflexivity.
+    + vm_compute. repeat constructor; simpl; intuition lia.
+    + intros e He. vm_compute in He. destruct He as [<-|[<-|[]]]; reflexivity.
+    + intros e He. vm_compute in He. destruct He as [<-|[<-|[]]]; simpl; lia.
+  - split; reflexivity.
+Qed.
